@@ -148,9 +148,17 @@ def task_autograd_functions(ctx):
         else:
             ctx.ok("%s.backward.reads-only-its-own-invocation-state" % name, "frames")
     # forward reads SCF.sp2 / SCF.converger: fresh, because scf_loop constructs SCF(...) in the same expression as .apply
-    src = inspect.getsource(S_.scf_loop)
-    fresh = "scfapply = SCF(use_sp2=sp2, scf_converger=scf_converger" in src and ").apply" in src
-    (ctx.ok if fresh else ctx.fail)("SCF.forward.class-state-written-in-the-same-call", "frames" if fresh else "scf_loop no longer constructs SCF(...) immediately before .apply")
+    # every `.apply` of the SCF family used in scf_loop is taken directly from a constructor call in the same expression
+    tree = _src_tree(S_.scf_loop)
+    applies = [n for n in ast.walk(tree) if isinstance(n, ast.Attribute) and n.attr == "apply"]
+    fam = [n for n in applies if isinstance(n.value, ast.Call) and isinstance(n.value.func, ast.Name) and n.value.func.id in ("SCF", "SCF0")]
+    detached = [ast.unparse(n) for n in applies if n not in fam and "SCF" in ast.unparse(n)]
+    if not fam and not detached:
+        ctx.error("SCF.forward.anchor", "scf_loop no longer takes `.apply` from the SCF family (contract anchor moved)")
+    elif detached:
+        ctx.fail("SCF.forward.class-state-written-in-the-same-call", "`.apply` taken from %r, not from a constructor call in the same expression: another job's constructor can run in between" % detached)
+    else:
+        ctx.ok("SCF.forward.class-state-written-in-the-same-call", "frames", detail="%d constructor-and-apply expressions" % len(fam))
 
 
 def task_caches(ctx):
@@ -189,10 +197,30 @@ def task_mutable_defaults(ctx):
     overwritten by the same call; keys read conditionally on presence can never be left behind by any method."""
     import seqm.basics as B
 
-    ctx.under_contract("seqm.basics:Pack_Parameters.forward")
-    src = inspect.getsource(B.Pack_Parameters.forward)
-    ok = "for i in range(self.nrp):" in src and "learned_params[self.required_list[i]] = self.p[Z, i]" in src
-    (ctx.ok if ok else ctx.fail)("every-required-key-is-overwritten-by-the-call", "frames" if ok else "Pack_Parameters.forward no longer overwrites every required key")
+    fpk = ctx.under_contract("seqm.basics:Pack_Parameters.forward")
+    # semantic: the real forward on a dictionary that already holds a stale value for every required key (what an earlier call
+    # leaves in the shared default argument): afterwards every required key holds this call's table row
+    import torch as rt
+
+    required = ["U_ss", "U_pp", "zeta_s", "zeta_p", "beta_s"]
+
+    def thunk():
+        pk = object.__new__(B.Pack_Parameters)
+        rt.nn.Module.__init__(pk)
+        pk.__dict__.update(required_list=list(required), nrp=len(required), p=st.symbolic((9, len(required)), "tab"), alpha=st.zeros(1), chi=st.zeros(1))
+        stale = {k: st.symbolic((2,), "stale_" + k) for k in required}
+        out = fpk(pk, st.tensor([8, 1]), learned_params=stale)
+        return out, stale
+
+    ex = ctx.explore(thunk, name="Pack_Parameters.forward")
+    if len(ex.paths) != 1 or ex.paths[0].raised is not None:
+        ctx.error("pack.paths", "%r %s" % ([p.raised for p in ex.paths], ex.paths[0].notes.get("traceback", "")[-600:] if ex.paths else ""))
+    else:
+        out, stale = ex.paths[0].value
+        d = out[0] if isinstance(out, tuple) else out
+        for i, k in enumerate(required):
+            for a_, z in enumerate((8, 1)):
+                ctx.prove_eq("every-required-key-is-overwritten-by-the-call[%s,atom%d]" % (k, a_), d[k].a[a_], real("tab_%d_%d" % (z, i)))
     left_behind = set()
     for m, lst in B.parameterlist.items():
         left_behind |= set(lst)
@@ -207,8 +235,18 @@ def task_mutable_defaults(ctx):
 
     importlib.import_module("seqm.Molecule")
     msrc = inspect.getsource(sys.modules["seqm.Molecule"].Molecule.__init__)
-    ok = ("copy_packed_parameters(" in msrc or "copy.deepcopy(" in msrc) and "self.packpar(self.Z, learned_params=" in msrc
-    (ctx.ok if ok else ctx.fail)("molecule-parameters-do-not-alias-the-shared-default", "frames" if ok else "deepcopy of the packed parameters not found")
+    mtree = _src_tree(sys.modules["seqm.Molecule"].Molecule.__init__)
+    packcalls = [n for n in ast.walk(mtree) if isinstance(n, ast.Call) and ast.unparse(n.func).endswith("packpar")]
+    if not packcalls:
+        ctx.error("molecule-parameters.anchor", "Molecule.__init__ no longer calls self.packpar (contract anchor moved)")
+    else:
+        # each packpar(...) result must pass through a copying call before it is bound
+        wrapped = []
+        for n in ast.walk(mtree):
+            if isinstance(n, ast.Call) and ast.unparse(n.func).split(".")[-1] in ("copy_packed_parameters", "deepcopy") and any(pc is a for pc in packcalls for a in ast.walk(n)):
+                wrapped += [pc for pc in packcalls if any(pc is a for a in ast.walk(n))]
+        ok = all(any(pc is w for w in wrapped) for pc in packcalls)
+        (ctx.ok if ok else ctx.fail)("molecule-parameters-do-not-alias-the-shared-default", "frames" if ok else "a packpar(...) result is bound without being copied: molecule.parameters aliases the dictionary shared between calls")
 
 
 def _accumulation_semantics(fn, tgt):
